@@ -214,6 +214,111 @@ func checkTemplate(c tmplCase) *ev.Failure {
 
 var checkTemplateR = reg("C15", "template", checkTemplate)
 
+// sub-check infn: the template is the value of a function (under cond / let / begin / newScope /
+// and), and may unquote or splice a call of that same function: (tf n) must be the substitution
+// computed level by level.
+type tmplFnCase struct {
+	Base  tnode  `json:"base"` // value at n = 0 (template without recursion)
+	Step  tnode  `json:"step"` // template at n > 0; unqx/splx with S == tmplRecSrc stand for the recursive call
+	Wrap  string `json:"wrap"` // none let begin newScope and letseq
+	Depth int    `json:"depth"`
+}
+
+const tmplRecSrc = "(tf (- n 1))"
+
+func (c tmplFnCase) text() string {
+	body := "(cond (== n 0) ^" + c.Base.render() + " ^" + c.Step.render() + ")"
+	switch c.Wrap {
+	case "let":
+		body = "(let [q n] " + body + ")"
+	case "letseq":
+		body = "(letseq [q n r q] " + body + ")"
+	case "begin":
+		body = "(begin (set cnt (+ cnt 1)) " + body + ")"
+	case "newScope":
+		body = "(newScope (def q n) " + body + ")"
+	case "and":
+		body = "(and true " + body + ")"
+	}
+	return "(defn tf [n] " + body + ")"
+}
+
+func (c tmplFnCase) want(n int) (tnode, bool) {
+	env := map[string]tnode{}
+	for k, v := range tmplBindings {
+		env[k] = v
+	}
+	env["n"] = tnode{K: "int", I: int64(n)}
+	exprs := exprTable()
+	t := c.Base
+	if n > 0 {
+		prev, ok := c.want(n - 1)
+		if !ok {
+			return tnode{}, false
+		}
+		exprs[tmplRecSrc] = prev
+		t = c.Step
+	}
+	res := subst(t, env, exprs)
+	if len(res) != 1 {
+		return tnode{}, false
+	}
+	return res[0], true
+}
+
+func checkTemplateInFn(c tmplFnCase) *ev.Failure {
+	want, ok := c.want(c.Depth)
+	if !ok {
+		return nil
+	}
+	env := newEnv(envFull)
+	defer env.Close()
+	if r := evalString(env, tmplPrelude, 10000); r.Err != nil || r.Panic != "" {
+		return &ev.Failure{Sig: "prelude", Msg: "prelude fails", Observed: fmt.Sprint(r.Err, r.Panic)}
+	}
+	text := c.text() + fmt.Sprintf("\n(tf %d)\n", c.Depth)
+	sig := "infn:" + c.Wrap + ":" + tmplSig(c.Step)
+	r := evalString(env, text, 200000)
+	if r.Panic != "" {
+		return &ev.Failure{Sig: "infn-panic", Msg: "evaluating " + text + " panics", Expected: want.dumpT(), Observed: r.Panic}
+	}
+	if r.Err != nil {
+		return &ev.Failure{Sig: sig, Msg: "evaluating " + text + " fails", Expected: want.dumpT(), Observed: firstLine(r.Err.Error())}
+	}
+	if got := dump(r.Val); got != want.dumpT() {
+		return &ev.Failure{Sig: sig, Msg: "template that is the value of a function does not expand by exact substitution: " + text, Expected: want.dumpT(), Observed: got}
+	}
+	if d := env.VerifDepths(); d.Data != 0 || d.Scope != 1 || d.Addr != 0 || d.Loop != 0 {
+		return &ev.Failure{Sig: "infn-leftover", Msg: "evaluating " + text + " leaves the interpreter not at rest", Observed: fmt.Sprintf("%+v", d)}
+	}
+	return nil
+}
+
+var checkTemplateInFnR = reg("C15", "infn", checkTemplateInFn)
+
+// insertRec puts a node at a random position of a random list/array inside n (n itself is a list)
+func insertRec(t *rapid.T, n tnode, rec tnode, depth int) tnode {
+	var subs []int
+	for i, k := range n.Kids {
+		if k.K == "list" || k.K == "arr" {
+			subs = append(subs, i)
+		}
+	}
+	if len(subs) > 0 && depth < 3 && rapid.IntRange(0, 2).Draw(t, "descend") == 0 {
+		i := subs[rapid.IntRange(0, len(subs)-1).Draw(t, "sub")]
+		kids := append([]tnode{}, n.Kids...)
+		kids[i] = insertRec(t, kids[i], rec, depth+1)
+		n.Kids = kids
+		return n
+	}
+	pos := rapid.IntRange(0, len(n.Kids)).Draw(t, "recpos")
+	kids := append([]tnode{}, n.Kids[:pos]...)
+	kids = append(kids, rec)
+	kids = append(kids, n.Kids[pos:]...)
+	n.Kids = kids
+	return n
+}
+
 // sub-check macro: (m args) behaves as the hand-written expansion at the same place
 type macroCase struct {
 	Params []string `json:"params"` // last may be "& rest"
@@ -404,6 +509,9 @@ func genTmpl(t *rapid.T, depth int, names []string, allowExpr bool, inList bool)
 			// splices only make sense inside a list or array; names bound to lists
 			var ls []string
 			for _, n := range names {
+				if n == "n" {
+					continue // the level counter of the infn sub-check is an int
+				}
 				if b, ok := tmplBindings[n]; !ok || b.K == "list" {
 					ls = append(ls, n)
 				}
@@ -480,7 +588,7 @@ func (n tnode) stats() (unq, spl, compound, depth int) {
 func TestC15(t *testing.T) {
 	p := begin(t, "C15")
 	r := p.r
-	r.SetRule("template: a tree over lists, arrays and {k: v} forms (depth <=4) with ~name, ~(compound expr), ~@name, ~@(compound expr) at arbitrary positions (first, last, adjacent splices, empty splices, splice as only element, inside arrays and hash values) over bindings a=3, s=\"str\", y=foo, l=(1 2), e=(), nn=((1) 2); ^template must evaluate to my independent substitution (structural) and leave the stack depths unchanged. macro: (defmac mm [params] ^body) with body such a template over the parameters (incl. & rest), called with argument forms carrying (trace ..) effects at top level, inside a function, a loop, a let and a defn; the call must have the value and trace of the hand-written expansion evaluated at the same place on a twin; (macexpand (mm ..)) must be the expansion; compiling a text that only expands it ((fn [a] (mm ..)) never called) must leave stack depths, trace and globals untouched. Non-trivial: >=1 splice and >=1 unquote of a compound expression (template) / of an argument form (macro), nesting >=2. Distinct by template text.")
+	r.SetRule("template: a tree over lists, arrays and {k: v} forms (depth <=4) with ~name, ~(compound expr), ~@name, ~@(compound expr) at arbitrary positions (first, last, adjacent splices, empty splices, splice as only element, inside arrays and hash values) over bindings a=3, s=\"str\", y=foo, l=(1 2), e=(), nn=((1) 2); ^template must evaluate to my independent substitution (structural) and leave the stack depths unchanged. infn: (defn tf [n] WRAP(cond (== n 0) ^base ^step)) with WRAP in {none, let, letseq, begin, newScope, and}, step containing ~(tf (- n 1)) and/or ~@(tf (- n 1)) at random positions besides the usual unquotes (and ~n): (tf d), d=0..4, must equal the substitution computed level by level. macro: (defmac mm [params] ^body) with body such a template over the parameters (incl. & rest), called with argument forms carrying (trace ..) effects at top level, inside a function, a loop, a let and a defn; the call must have the value and trace of the hand-written expansion evaluated at the same place on a twin; (macexpand (mm ..)) must be the expansion; compiling a text that only expands it ((fn [a] (mm ..)) never called) must leave stack depths, trace and globals untouched. Non-trivial: >=1 splice and >=1 unquote of a compound expression (template) / of an argument form (macro), nesting >=2. Distinct by template text.")
 	names := []string{"a", "s", "y", "l", "e", "nn"}
 	p.rapidSub("template", ev.Scale(4000, 600000), func(t *rapid.T) {
 		n := tnode{K: rapid.SampledFrom([]string{"list", "list", "arr"}).Draw(t, "topk")}
@@ -514,6 +622,43 @@ func TestC15(t *testing.T) {
 			r.Sample("template", "^"+n.render())
 		}
 		p.report(t, "template", c, checkTemplate(c))
+	})
+	p.rapidSub("infn", ev.Scale(2500, 300000), func(t *rapid.T) {
+		fnNames := append(append([]string{}, names...), "n")
+		mk := func(label string, rec bool) tnode {
+			n := tnode{K: "list"}
+			for i := 0; i < rapid.IntRange(0, 4).Draw(t, label+"n"); i++ {
+				n.Kids = append(n.Kids, genTmpl(t, 2, fnNames, true, true))
+			}
+			return n
+		}
+		c := tmplFnCase{Base: mk("base", false), Step: mk("step", true)}
+		nrec := rapid.IntRange(1, 2).Draw(t, "nrec")
+		kinds := []string{}
+		for i := 0; i < nrec; i++ {
+			k := rapid.SampledFrom([]string{"splx", "splx", "unqx"}).Draw(t, "reck")
+			kinds = append(kinds, k)
+			c.Step = insertRec(t, c.Step, tnode{K: k, S: tmplRecSrc}, 0)
+		}
+		c.Wrap = rapid.SampledFrom([]string{"none", "none", "let", "letseq", "begin", "newScope", "and"}).Draw(t, "wrap")
+		c.Depth = rapid.IntRange(0, 4).Draw(t, "depth")
+		if nrec == 2 && c.Depth > 3 {
+			c.Depth = 3
+		}
+		last := len(c.Step.Kids) > 0 && c.Step.Kids[len(c.Step.Kids)-1].S == tmplRecSrc
+		nt := c.Depth >= 2
+		labels := []string{"wrap:" + c.Wrap, fmt.Sprintf("depth:%d", c.Depth)}
+		for _, k := range kinds {
+			labels = append(labels, "recursive-"+k)
+		}
+		if last {
+			labels = append(labels, "recursive-call-is-last-template-element")
+		}
+		r.Count("infn", ev.Hash64(c.text()+fmt.Sprint(c.Depth)), nt, labels...)
+		if nt {
+			r.Sample("infn", c.text()+fmt.Sprintf(" (tf %d)", c.Depth))
+		}
+		p.report(t, "infn", c, checkTemplateInFn(c))
 	})
 	argForms := []string{"(trace 1)", "(trace (+ a 1))", "5", "a", "(list 1 2)", "(begin (set cnt (+ cnt 1)) cnt)", "\"s\"", "(+ (trace 2) 3)", "[1 2]", "(trace b)"}
 	p.rapidSub("macro", ev.Scale(2500, 400000), func(t *rapid.T) {
